@@ -10,7 +10,7 @@ RULE = ("seeded histories of put / get / request / release / cancel (give up aft
         "FilterStore, Resource, PriorityResource or PreemptiveResource of capacity 1-3 (or "
         "unbounded). Non-trivial = at least one request had to queue; distinct = distinct "
         "(resource type, operation history).")
-BUDGET = {"quick": {"cases": 60000, "wall_s": 100, "chunk": 200},
+BUDGET = {"quick": {"cases": 60000, "wall_s": 240, "chunk": 200},
           "thorough": {"cases": 800000, "wall_s": 1500, "chunk": 500}}
 ASSUMPTIONS = ["requests are granted when issued or when a complementary request is processed "
                "(SimPy's two-phase scheme); the reference model is driven by the observed issue "
